@@ -41,6 +41,18 @@ class MaybeConstantView {
   constexpr ValueT UncheckedRead() const { return value_.ValueOrDefault(); }
   constexpr bool Ok() const { return value_.Known(); }
 
+  // Structure views compare their parameters in Equals() and UncheckedEquals()
+  // the same way they compare their fields.
+  template <typename OtherValueT>
+  bool Equals(const MaybeConstantView<OtherValueT> &other) const {
+    return Read() == other.Read();
+  }
+  template <typename OtherValueT>
+  constexpr bool UncheckedEquals(
+      const MaybeConstantView<OtherValueT> &other) const {
+    return UncheckedRead() == other.UncheckedRead();
+  }
+
  private:
   ::emboss::support::Maybe<ValueT> value_;
 };
